@@ -646,9 +646,18 @@ func c14HuntChild(args []string) int {
 		lc := core.LocalCounts{}
 		for i := 0; i < count; i++ {
 			var env *Env
-			if i%50 == 0 {
-				env = NewEnv(spec.RandomOps(r, spec.GenOpts{Styles: true, ScriptStyle: i%100 == 0}))
-				envs = append(envs[:3], env)
+			if i%8 == 0 {
+				// a fresh random policy every 8 calls (and used for half of them): option combinations
+				// such as "link option on, URL checking switched off again" only exist there
+				ops := spec.RandomOps(r, spec.GenOpts{Styles: true, ScriptStyle: i%64 == 0})
+				if i%24 == 0 {
+					ops = append(ops, spec.Op{K: spec.KSwitch, Names: []string{spec.SwParseable}, B: false})
+				}
+				if i%40 == 0 {
+					ops = append(ops, spec.Op{K: spec.KUnsafe, B: true})
+				}
+				env = NewEnv(ops)
+				envs = append(envs[:3], env, env, env)
 			} else {
 				env = envs[r.Intn(len(envs))]
 			}
@@ -691,8 +700,8 @@ func panicSite(stack string) string {
 	for _, line := range strings.Split(stack, "\n") {
 		l := strings.TrimSpace(line)
 		if strings.HasPrefix(l, "github.com/microcosm-cc/bluemonday") || strings.HasPrefix(l, "github.com/aymerick/douceur") || strings.HasPrefix(l, "github.com/gorilla/css") || strings.HasPrefix(l, "golang.org/x/net/html") {
-			if i := strings.Index(l, "("); i > 0 {
-				l = l[:i]
+			if i := strings.LastIndex(l, "("); i > 0 {
+				l = l[:i] // drop the argument list, keep "(*Policy).sanitizeAttrs"
 			}
 			if i := strings.LastIndex(l, "/"); i >= 0 {
 				l = l[i+1:]
